@@ -835,7 +835,16 @@ func c20RacingRun(c c20RacingCase) Verdict {
 
 type c20AcceptCase struct {
 	Seq string `json:"seq"` // letters T (temporary error), P (permanent error), C (connection)
+	// Seq2 (optional, letters T and C): what a second listener of the same
+	// Server hands out at the same time (one Serve call each, as for ports 25
+	// and 465); the log sink does no locking of its own
+	Seq2 string `json:"seq2,omitempty"`
 }
+
+type unsyncLog struct{}
+
+func (unsyncLog) Printf(format string, v ...interface{}) {}
+func (unsyncLog) Println(v ...interface{})               {}
 
 type tempErr struct{}
 
@@ -893,6 +902,13 @@ func c20AcceptRun(c c20AcceptCase) Verdict {
 	s.ErrorLog = &harness.LogBuf{}
 	l := &scriptedListener{hub: hub, seq: c.Seq, closed: make(chan struct{})}
 	serveRes := make(chan error, 1)
+	var l2 *scriptedListener
+	serveRes2 := make(chan error, 1)
+	if c.Seq2 != "" {
+		s.ErrorLog = unsyncLog{}
+		l2 = &scriptedListener{hub: hub, seq: c.Seq2, closed: make(chan struct{})}
+		go func() { serveRes2 <- s.Serve(l2) }()
+	}
 	go func() { serveRes <- s.Serve(l) }()
 	wantConns := 0
 	hasP := false
@@ -925,6 +941,27 @@ func c20AcceptRun(c c20AcceptCase) Verdict {
 	l.mu.Lock()
 	conns := append([]*harness.End(nil), l.conns...)
 	l.mu.Unlock()
+	conns = conns[:wantConns]
+	if l2 != nil {
+		want2 := strings.Count(c.Seq2, "C")
+		for {
+			l2.mu.Lock()
+			n, done := len(l2.conns), l2.pos >= len(c.Seq2)
+			l2.mu.Unlock()
+			if n >= want2 && done {
+				break
+			}
+			if time.Now().After(deadline) {
+				s.Close()
+				return failf("accept-stalled", "second listener, sequence %q: Serve stopped accepting after %d of %d connections", c.Seq2, n, want2)
+			}
+			time.Sleep(time.Millisecond)
+		}
+		l2.mu.Lock()
+		conns = append(conns, l2.conns...)
+		l2.mu.Unlock()
+		wantConns = len(conns)
+	}
 	for i, cl := range conns[:wantConns] {
 		cl.Write([]byte("QUIT\r\n"))
 		var got []byte
@@ -967,6 +1004,16 @@ func c20AcceptRun(c c20AcceptCase) Verdict {
 			}
 		case <-time.After(harness.Watchdog):
 			return failf("serve-result", "sequence %q: Serve did not return after Close", c.Seq)
+		}
+	}
+	if l2 != nil {
+		select {
+		case err := <-serveRes2:
+			if err != nil {
+				return failf("serve-result", "second listener, sequence %q: Serve returned %v after Close, want nil", c.Seq2, err)
+			}
+		case <-time.After(harness.Watchdog):
+			return failf("serve-result", "second listener: Serve did not return after Close")
 		}
 	}
 	if left := harness.WaitNoServerGoroutines(); len(left) > 0 {
@@ -1117,6 +1164,16 @@ func TestC20(t *testing.T) {
 		if !raceSubtest(t, c20Accept, "accept_"+sq, c20AcceptCase{Seq: sq}) {
 			complete = false
 			break
+		}
+	}
+	// two listeners of one Server with Accept trouble at the same time
+	for _, pair := range [][2]string{{"TTC", "TTC"}, {"TCT", "CTT"}, {"TTTC", "TC"}, {"CTTC", "TTT"}, {"TT", "TTTT"}} {
+		idx++
+		if !mine(idx) || !complete {
+			continue
+		}
+		if !raceSubtest(t, c20Accept, "accept2_"+pair[0]+"_"+pair[1], c20AcceptCase{Seq: pair[0], Seq2: pair[1]}) {
+			complete = false
 		}
 	}
 	st.Exhaustive["accept"] = complete
